@@ -91,12 +91,11 @@ func vc12Calls() []vc12Call {
 			}
 			return nil, nil
 		}},
-		{"SetReadTimeout", "misc", func(c Connection, n int) (error, []byte) { c.SetReadTimeout(time.Second); return nil, nil }},
+		{"SetReadTimeout", "misc", func(c Connection, n int) (error, []byte) { c.SetReadTimeout(25 * time.Second); return nil, nil }},
 		{"SetWriteTimeout", "misc", func(c Connection, n int) (error, []byte) { c.SetWriteTimeout(time.Second); return nil, nil }},
 		{"SetIdleTimeout", "misc", func(c Connection, n int) (error, []byte) { c.SetIdleTimeout(time.Minute); return nil, nil }},
 		{"SetReadDeadline", "misc", func(c Connection, n int) (error, []byte) {
-			c.SetReadDeadline(time.Now().Add(time.Second))
-			c.SetReadDeadline(time.Time{})
+			c.SetReadDeadline(time.Now().Add(40 * time.Second))
 			return nil, nil
 		}},
 		{"Addrs", "misc", func(c Connection, n int) (error, []byte) { c.LocalAddr(); c.RemoteAddr(); return nil, nil }},
@@ -324,6 +323,21 @@ func vcRunC12(t *vcTrial, cell vc12Cell) {
 				t.Stat("fd_number_reissued", 1)
 			}
 		}
+	}
+	// ---- timer configuration in force while the calls are made: none, a read timeout, or a read
+	// deadline in the future (the error classes below must not depend on it; an already expired
+	// deadline is left out - there a timeout error is as true as the close error)
+	switch tcfg := r.intn(4); tcfg {
+	case 1:
+		A.SetReadTimeout(20 * time.Second)
+		t.P("timer_config", "read timeout")
+	case 2:
+		A.SetReadDeadline(time.Now().Add(30 * time.Second))
+		t.P("timer_config", "read deadline")
+	case 3:
+		A.SetReadTimeout(20 * time.Second)
+		A.SetWriteDeadline(time.Now().Add(30 * time.Second))
+		t.P("timer_config", "read timeout + write deadline")
 	}
 	// ---- the calls, in a random order, each in its own goroutine with recover
 	calls := vc12Calls()
